@@ -811,3 +811,191 @@ class ImplViz(ImplGen):
         # a hostile directory listing: reversed
         order = load_order(list(reversed(names)))
         return f"xlim {seen.get('xlim', 0)} " + " / ".join(by_name[n] for n in order)
+
+
+# ----------------------------------------------------------------------------------- Gymnasium environments (C18)
+import numpy as _np  # noqa: E402
+
+from job_shop_lib.dispatching import DispatcherObserverConfig as _DOC  # noqa: E402
+from job_shop_lib.reinforcement_learning import (  # noqa: E402
+    SingleJobShopGraphEnv as _SingleEnv,
+    MultiJobShopGraphEnv as _MultiEnv,
+)
+
+REWARDS = {"makespan": MakespanReward, "idle": IdleTimeReward}
+
+
+def fmt_obs(obs) -> str:
+    rm = " ".join("1" if bool(b) else "0" for b in obs["removed_nodes"])
+    ei = obs["edge_index"]
+    if ei.ndim == 2:
+        cols = " ".join(f"{int(ei[0, k])}>{int(ei[1, k])}" for k in range(ei.shape[1]))
+    else:
+        cols = "" if ei.size == 0 else "bad-shape" + str(ei.shape)
+    feats = []
+    for key, arr in obs.items():
+        if key in ("removed_nodes", "edge_index"):
+            continue
+        name = {"operations": "o", "machines": "m", "jobs": "j"}[key]
+        feats.append(name + "=" + ";".join(",".join(fmt_val(v) for v in arr[:, c]) for c in range(arr.shape[1])))
+    return f"rm {rm} | ei {cols} | {' '.join(feats)}"
+
+
+def fmt_space(env) -> str:
+    a = env.action_space
+    o = env.observation_space
+    nj = int(a.nvec[0])
+    nm = int(a.nvec[1]) + int(a.start[1])          # values start .. start + nvec - 1
+    if int(a.start[0]) != 0:
+        nj = f"{nj}@{int(a.start[0])}"
+    ei = o["edge_index"]
+    nodes = o["removed_nodes"].n
+    extra = ""
+    if not (_np.all(ei.start == -1) and _np.all(ei.nvec == nodes + 1) and ei.shape[0] == 2):
+        extra = " edge-space-mismatch"
+    feats = " ".join(sorted(f"{ {'operations': 'o', 'machines': 'm', 'jobs': 'j'}[k]}={sp.shape[0]}x{sp.shape[1]}"
+                            for k, sp in o.spaces.items() if k not in ("removed_nodes", "edge_index")))
+    # gym.spaces.Dict sorts its keys; the model lists feature types in the composite's order, so sort both sides
+    return f"space {nj} {nm} {nodes} {ei.shape[1]} {feats}{extra}"
+
+
+class ImplEnv(ImplViz):
+    def _feature_configs(self, specs, style):
+        cfgs = []
+        for k, (kind, fts) in enumerate(specs):
+            kwargs = {} if fts == "-" else {"feature_types": [FT[c] for c in fts]}
+            sel = (style + k) % 3
+            if sel == 0:
+                cfgs.append(_DOC(_fo.FeatureObserverType(kind), kwargs=kwargs))
+            elif sel == 1:
+                cfgs.append(_DOC(FKINDS[kind], kwargs=kwargs))
+            elif not kwargs:
+                cfgs.append(_fo.FeatureObserverType(kind) if k % 2 else kind)
+            else:
+                cfgs.append(_DOC(kind, kwargs=kwargs))
+        return cfgs
+
+    @staticmethod
+    def _split(ts):
+        groups, cur = [], []
+        for t in ts:
+            if t == ";":
+                groups.append(cur)
+                cur = []
+            else:
+                cur.append(t)
+        groups.append(cur)
+        return groups
+
+    def _env_kwargs(self, head, feats, style=0):
+        b, rm, rj, rw, pad = head
+        return dict(
+            feature_observer_configs=self._feature_configs([(f[0], f[1]) for f in feats], style),
+            reward_function_config=_DOC(REWARDS[rw]),
+            graph_updater_config=_DOC(ResidualGraphUpdater, kwargs={"remove_completed_machine_nodes": rm == "1",
+                                                                    "remove_completed_job_nodes": rj == "1"}),
+            ready_operations_filter=self._make_filter(),
+            use_padding=pad == "1",
+        ), BUILDERS[b]
+
+    def cmd_env(self, ts):
+        groups = self._split(ts)
+        kwargs, builder = self._env_kwargs(groups[0], groups[1:], style=len(ts))
+        try:
+            self.env = _SingleEnv(job_shop_graph=builder(self.instance), **kwargs)
+        except Exception:  # pylint: disable=broad-except
+            self.env = None
+            return "raise"
+        self.env_kind = "single"
+        return fmt_space(self.env)
+
+    def cmd_eobs(self, ts):
+        try:
+            self.last_obs = self.env.get_observation()
+        except Exception:  # pylint: disable=broad-except
+            return "raise"
+        return fmt_obs(self.last_obs)
+
+    def cmd_ereset(self, ts):
+        try:
+            self.last_obs, _ = self.env.reset()
+        except Exception:  # pylint: disable=broad-except
+            return "raise"
+        return fmt_obs(self.last_obs)
+
+    def _fmt_step(self, res):
+        obs, reward, done, truncated, info = res
+        self.last_obs = obs
+        self.last_step = res
+        av = lst(o.operation_id for o in info["available_operations"])
+        return f"{fmt_obs(obs)} || r {fmt_val(reward)} d {fmt_bool_(done)} t {fmt_bool_(truncated)} av {av}"
+
+    def cmd_estep(self, ts):
+        try:
+            res = self.env.step((int(ts[0]), int(ts[1])))
+        except Exception:  # pylint: disable=broad-except
+            return "raise"
+        return self._fmt_step(res)
+
+    def cmd_menv(self, ts):
+        groups = self._split(ts)
+        j1, j2, m1, m2, d1, d2, al, rc, k1, k2 = [int(t) for t in groups[0]]
+        draws = [int(t) for t in groups[-1]]
+        g = GeneralInstanceGenerator(num_jobs=(j1, j2), num_machines=(m1, m2), duration_range=(d1, d2),
+                                     allow_less_jobs_than_machines=bool(al), allow_recirculation=bool(rc),
+                                     machines_per_operation=(k1, k2), name_suffix="verif")
+        g.rng = ScriptedRng(draws)
+        kwargs, builder = self._env_kwargs(groups[1], groups[2:-1], style=len(ts))
+        self.menv_kwargs = kwargs
+        self.menv_builder = builder
+        try:
+            self.menv = _MultiEnv(instance_generator=g, graph_initializer=builder, **kwargs)
+        except Exception:  # pylint: disable=broad-except
+            self.menv = None
+            return "raise"
+        return fmt_space(self.menv)
+
+    def cmd_mreset(self, ts):
+        try:
+            self.last_obs, _ = self.menv.reset()
+        except Exception:  # pylint: disable=broad-except
+            return "raise"
+        return f"{fmt_instance(self.menv.instance)} || {fmt_obs(self.last_obs)}"
+
+    def cmd_mstep(self, ts):
+        try:
+            res = self.menv.step((int(ts[0]), int(ts[1])))
+        except Exception:  # pylint: disable=broad-except
+            return "raise"
+        return self._fmt_step(res)
+
+    @staticmethod
+    def legal_actions(env):
+        d = env.dispatcher
+        acts = []
+        for j, job in enumerate(d.instance.jobs):
+            k = d.job_next_operation_index[j]
+            if k >= len(job):
+                continue
+            op = job[k]
+            ms = [(j, m) for m in op.machines]
+            acts += ([(j, -1)] + ms) if len(op.machines) == 1 else ms
+        return acts
+
+    def _auto(self, env, k):
+        acts = self.legal_actions(env)
+        if not acts:
+            return "no-legal-action"
+        j, m = acts[k % len(acts)]
+        self.last_action = (j, m)
+        try:
+            res = env.step((j, m))
+        except Exception:  # pylint: disable=broad-except
+            return f"act {j} {m} raise"
+        return f"act {j} {m} {self._fmt_step(res)}"
+
+    def cmd_eauto(self, ts):
+        return self._auto(self.env, int(ts[0]))
+
+    def cmd_mauto(self, ts):
+        return self._auto(self.menv, int(ts[0]))
